@@ -361,6 +361,75 @@ class _ValueWriter:
         return "new %s.Builder()%s.build()" % (cls, "".join(calls))
 
 
+def _javac(sources, outdir, argfile):
+    """One javac run -> (returncode, trimmed output, seconds)."""
+    with open(argfile, "w") as f:
+        for p in sources:
+            f.write('"%s"\n' % p.replace("\\", "\\\\"))
+    cmd = ["javac", "-J-XX:+UseSerialGC", "-J-XX:TieredStopAtLevel=1", "-J-Xss16m", "-proc:none", "-nowarn",
+           "-Xlint:none", "-Xmaxerrs", "200", "-encoding", "UTF-8", "-d", outdir, "@" + argfile]
+    t0 = time.time()
+    try:
+        p = subprocess.run(cmd, stdout=subprocess.PIPE, stderr=subprocess.STDOUT, timeout=1800)
+    except subprocess.TimeoutExpired:
+        raise JavaError("javac timed out", "javac")
+    out = p.stdout.decode("utf-8", "replace")
+    # generated classes are single-line files: javac echoes the whole class per diagnostic
+    out = "\n".join(l if len(l) <= 300 else l[:300] + " [...]" for l in out.splitlines() if l.strip() != "^")
+    return p.returncode, out, time.time() - t0
+
+
+def build_many(items, key="batch"):
+    """items: [(JavaHarness, values)] (generate() is called where needed) -> {name: None | JavaError}.
+    All descriptions are compiled by one javac run into one class directory (each has its own
+    package); when that fails, the harnesses named by the diagnostics are rebuilt alone (so each
+    gets its own error) and the remainder is compiled together again. About 0.1-0.2 s per
+    description instead of 1-2 s."""
+    res = {}
+    live = []
+    for h, values in items:
+        try:
+            live.append((h, h.write_sources(values)))
+        except JavaError as e:
+            res[h.name] = e
+    outdir = os.path.join(build.WORK, "java", "_" + re.sub(r"\W", "_", key) + "_classes")
+    for _ in range(4):
+        if not live:
+            break
+        shutil.rmtree(outdir, ignore_errors=True)
+        os.makedirs(outdir)
+        rc, out, dt = _javac([p for _, src in live for p in src], outdir, outdir + ".txt")
+        if rc == 0:
+            for h, _ in live:
+                h.classes = outdir
+                h.built = True
+                h.timings["javac"] = dt / len(live)
+                res[h.name] = None
+            return res
+        named = set(re.findall(r"(\S+\.java):\d+: error", out))
+        bad = [(h, src) for h, src in live if any(p.startswith(h.pkgdir + os.sep) for p in named)]
+        if not bad:
+            bad = live
+        for h, src in bad:
+            try:
+                h.classes = os.path.join(h.dir, "classes")
+                shutil.rmtree(h.classes, ignore_errors=True)
+                os.makedirs(h.classes)
+                rc1, out1, dt1 = _javac(src, h.classes, os.path.join(h.dir, "sources.txt"))
+                h.timings["javac"] = dt1
+                if rc1 != 0:
+                    res[h.name] = h._javac_error(out1, rc1)
+                else:
+                    h.built = True
+                    res[h.name] = None
+            except JavaError as e:
+                res[h.name] = e
+        live = [(h, src) for h, src in live if h.name not in res]
+    for h, _ in live:
+        res[h.name] = JavaError("batch build did not converge", "javac")
+    return res
+
+
 class JavaHarness:
     VALS_PER_CLASS_BYTES = 150000
 
@@ -645,10 +714,12 @@ class JavaHarness:
         return classes
 
     # ------------------------------------------------------------ build
-    def build(self, values):
+    def write_sources(self, values):
+        """Write the driver next to the generated classes -> absolute paths of all sources."""
         if not self.generated_files:
             self.generate()
         self.close()
+        self.built = False
         for fn in os.listdir(self.pkgdir):
             if fn.startswith("Pv") and fn.endswith(".java") and fn not in self.generated_files:
                 os.unlink(os.path.join(self.pkgdir, fn))
@@ -667,33 +738,27 @@ class JavaHarness:
         if clash:
             raise JavaError("generated class names collide with the driver's: %s" % clash, "javac",
                             files=clash, in_generated=False)
+        return [os.path.join(self.pkgdir, fn) for fn in self.generated_files + ours]
+
+    def build(self, values):
+        sources = self.write_sources(values)
         shutil.rmtree(self.classes, ignore_errors=True)
         os.makedirs(self.classes)
-        argfile = os.path.join(self.dir, "sources.txt")
-        with open(argfile, "w") as f:
-            for fn in self.generated_files + ours:
-                f.write('"%s"\n' % os.path.join(self.pkgdir, fn).replace("\\", "\\\\"))
-        cmd = ["javac", "-J-XX:+UseSerialGC", "-J-XX:TieredStopAtLevel=1", "-J-Xss16m", "-proc:none", "-nowarn",
-               "-Xlint:none", "-Xmaxerrs", "40", "-encoding", "UTF-8", "-d", self.classes, "@" + argfile]
-        t0 = time.time()
-        try:
-            p = subprocess.run(cmd, stdout=subprocess.PIPE, stderr=subprocess.STDOUT, timeout=900)
-        except subprocess.TimeoutExpired:
-            raise JavaError("javac timed out", "javac")
-        self.timings["javac"] = time.time() - t0
-        out = p.stdout.decode("utf-8", "replace")
-        if p.returncode != 0:
-            # generated classes are single-line files: javac echoes the whole class per diagnostic
-            out = "\n".join(l if len(l) <= 300 else l[:300] + " [...]" for l in out.splitlines()
-                            if l.strip() != "^")
-            files = sorted(set(re.findall(r"([\w$]+\.java):\d+: error", out)))
-            gen = [fn for fn in files if fn in self.generated_files]
-            if len(out) > 9000:
-                out = out[:6000] + "\n[...]\n" + out[-3000:]
-            raise JavaError(out, "javac", files=files,
-                            in_generated=bool(gen) if files else None, returncode=p.returncode)
+        rc, out, dt = _javac(sources, self.classes, os.path.join(self.dir, "sources.txt"))
+        self.timings["javac"] = dt
+        if rc != 0:
+            raise self._javac_error(out, rc)
         self.built = True
-        return self.timings["javac"]
+        return dt
+
+    def _javac_error(self, out, rc):
+        mine = self.pkgdir + os.sep
+        files = sorted(set(os.path.basename(p) for p in re.findall(r"(\S+\.java):\d+: error", out)
+                           if p.startswith(mine) or os.sep not in p))
+        gen = [fn for fn in files if fn in self.generated_files]
+        if len(out) > 9000:
+            out = out[:6000] + "\n[...]\n" + out[-3000:]
+        return JavaError(out, "javac", files=files, in_generated=bool(gen) if files else None, returncode=rc)
 
     # ------------------------------------------------------------ run
     def _client(self):
@@ -792,6 +857,42 @@ BAD_TAG_NAMES = frozenset(["String", "Object", "Override", "IllegalArgumentExcep
                            "Long"])
 
 
+def _analyzer_order(file, exclude=()):
+    """id -> position after analyzer::check_decl_identifiers' reordering: declarations in file
+    order, each preceded by the types of its typedef / constant-size array / fixed-enum fields
+    (through groups) and by its parent."""
+    ex = set(exclude)
+    decls = [d for d in file["declarations"] if d.get("id") not in ex]
+    dm = {d["id"]: d for d in decls if "id" in d}
+    order = {}
+    visiting = set()
+
+    def visit(d):
+        did = d.get("id")
+        if did is None or did in order or did in visiting:
+            return
+        visiting.add(did)
+        for fl in d.get("fields", ()):
+            k = fl["kind"]
+            t = None
+            if k == "group_field":
+                t = fl.get("group_id")
+            elif k == "typedef_field" or (k == "array_field" and fl.get("size") is not None):
+                t = fl.get("type_id")
+            elif k == "fixed_field":
+                t = fl.get("enum_id")
+            if t is not None and t in dm:
+                visit(dm[t])
+        if d.get("parent_id") in dm:
+            visit(dm[d["parent_id"]])
+        visiting.discard(did)
+        order[did] = len(order)
+
+    for d in decls:
+        visit(d)
+    return order
+
+
 def diagnose(file, exclude=()):
     """-> [(declaration id, reason)]: why `pdlc --output-format java` panics on this description
     or emits Java that javac rejects. Empty = expected to generate and compile. Every rule was
@@ -805,12 +906,20 @@ def diagnose(file, exclude=()):
             out.append((did, "class name %s is also produced by %s" % (cn, names[cn])))
         names[cn] = what
 
+    position = _analyzer_order(file, exclude)
     for d in info.decls:
         k = d["kind"]
         did = d.get("id")
         if k in ("custom_field_declaration", "checksum_declaration"):
             out.append((did, "%s (todo!() in java/mod.rs generate_classes, even when unused)" % k))
             continue
+        # classes are created in the analyzer's declaration order (a post-order walk that does not
+        # follow dynamically sized arrays) and looked up with unwrap()
+        for fl in d.get("fields", ()):
+            r = fl.get("type_id") if fl["kind"] == "array_field" else None
+            if r is not None and r in position and position[r] >= position.get(did, -1):
+                out.append((did, "array of %s, which the backend has not seen yet (declared later / recursive: "
+                                 "unwrap panic at java/mod.rs Array)" % r))
         if k == "test_declaration" or did is None:
             continue
         why = []
@@ -873,6 +982,13 @@ def diagnose(file, exclude=()):
             width = None
             if fk in ("scalar_field", "reserved_field", "size_field", "count_field"):
                 width = fl["width"]
+                if fk in ("size_field", "count_field"):
+                    if width == 1:
+                        why.append("%s of width 1 (declared boolean, used as an int)" % fk)
+                    if width > 32:
+                        why.append("%s wider than 32 (mask emitted as an int literal / long narrowed to int)" % fk)
+                    if fl["field_id"] == "_body_":
+                        why.append("_size_(_body_) (looked up as member `body`, which does not exist)")
             elif fk == "fixed_field":
                 if fl.get("enum_id") is not None:
                     width = (info.dm.get(fl["enum_id"]) or {}).get("width")
